@@ -2,7 +2,7 @@
    binary64 (FOps) is run by vm_compute on the inputs the implementation was run on. *)
 From Coq Require Import ZArith List Bool PrimFloat Arith.
 From PV Require Import Num FNum PyBase Model.Component Model.Mixture Model.Permeance Model.Solver Model.Membrane
-  Model.Process Model.Curve Model.Persist Model.PersistCheck.
+  Model.Process Model.Curve Model.NonIdealCurve Model.Fit Model.Persist Model.PersistCheck.
 Import ListNotations.
 Open Scope bool_scope.
 
@@ -38,3 +38,17 @@ Definition rows_near := list_eqb row_near.
 (* the membrane as a function usable by the process / solver models *)
 Definition perm_of (exps : option (list (Experiment FOps))) : float -> Component FOps -> res (Permeance FOps) :=
   fun T c => get_permeance FOps exps T c None.
+
+(* ---- curves, non-ideal curves, fits ---- *)
+Definition ppair_near (a b : Permeance FOps * Permeance FOps) : bool := perm_near (fst a) (fst b) && perm_near (snd a) (snd b).
+Definition nums_near := list_eqb fnear.
+Definition metrics_near (a b : list (float * float) * list (Permeance FOps * Permeance FOps) * list float * (list float * list float * list float)) : bool :=
+  let '(ja, pa, ya, (sa, qa, la)) := a in
+  let '(jb, pb, yb, (sb, qb, lb)) := b in
+  list_eqb pair_near ja jb && list_eqb ppair_near pa pb && nums_near ya yb && nums_near sa sb && nums_near qa qb && nums_near la lb.
+Definition nicurve_near (a b : list (Composition FOps) * list (float * float) * list (Permeance FOps * Permeance FOps)) : bool :=
+  let '(xa, ja, pa) := a in
+  let '(xb, jb, pb) := b in
+  list_eqb comp_near xa xb && list_eqb pair_near ja jb && list_eqb ppair_near pa pb.
+Definition meas_near (a b : list (float * (float * float))) : bool :=
+  list_eqb (fun p q => fnear (fst p) (fst q) && pair_near (snd p) (snd q)) a b.
